@@ -290,7 +290,9 @@ class Encoder:
         raise Unsupported("boolean node %s" % type(node).__name__)
 
     def binary(self, node, env):
-        op = getattr(node.operator, "__name__", None) or "custom:%s" % getattr(node.operator, "opstring", node.operator)
+        # (col.op("GLOB") is a custom_op INSTANCE: it has an opstring, and its class name as __name__)
+        opstring = getattr(node.operator, "opstring", None)
+        op = "custom:%s" % opstring if opstring is not None else node.operator.__name__
         if op == "custom:GLOB":
             left, right = self.scalar(node.left, env), self.scalar(node.right, env)
             if left.kind != "str" or right.kind != "str" or not z3.is_string_value(right.term):
